@@ -186,7 +186,7 @@ func Generate(prop string, r *sim.Rand, tier string) *sim.Plan {
 		n = r.Range(15, 160)
 	}
 	cfg.BigBlocks = r.Chance(0.35)
-	cfg.KV = (prop == "C07" || prop == "C01") && r.Chance(0.5)
+	cfg.KV = ((prop == "C07" || prop == "C01") && r.Chance(0.5)) || prop == "C13"
 	cfg.Rejected = prop == "C17" && r.Chance(0.5)
 	if cfg.KV && r.Chance(0.8) {
 		// running out of gas means burning the whole limit: a smaller limit keeps those transactions cheap
@@ -536,6 +536,17 @@ func (g *gen) step(prop string) []CStep {
 		}
 		return []CStep{g.transfer()}
 	default: // C01, C02, C04, C06, C07: mixed traffic
+		if prop == "C13" {
+			// node-level form of C13: the records of a user contract written, rewritten and read back across blocks,
+			// failed transactions and restarts
+			if r.Chance(0.6) {
+				return []CStep{CStep{Op: "kv", A: r.Intn(5), B: r.Intn(3), N: r.Intn(27)}}
+			}
+			if r.Chance(0.5) {
+				return []CStep{g.cut()}
+			}
+			return []CStep{g.transfer()}
+		}
 		if prop == "C01" || prop == "C07" {
 			// every transaction kind the node accepts
 			if g.cfg.KV && r.Chance(0.15) {
